@@ -45,6 +45,20 @@ pub fn client_frames(run: &ClientRun) -> Vec<Frame> {
     out
 }
 
+/// The device id the simulated terminal puts on the wire (8 characters, space padded).
+pub fn reported_serial(plan: &ClientPlan) -> String {
+    let mut s: String = plan.pt.serial.chars().take(8).collect();
+    while s.len() < 8 {
+        s.push(' ');
+    }
+    s
+}
+
+/// A terminal reporting another serial is a standing fault: nothing can succeed.
+pub fn serial_mismatch(plan: &ClientPlan) -> bool {
+    !reported_serial(plan).eq_ignore_ascii_case(&plan.cfg.serial)
+}
+
 pub fn judge_faulty(plan: &ClientPlan, run: &ClientRun, out: &mut RunOut) {
     for o in &run.ops {
         match &o.result {
@@ -116,7 +130,7 @@ pub fn judge_faulty(plan: &ClientPlan, run: &ClientRun, out: &mut RunOut) {
         let ident = pt.identity_sent.iter().find(|(c, _, _)| *c == k);
         for c in cmds.iter().skip(2) {
             let vetted = match ident {
-                Some((_, serial, seq)) => serial.trim().eq_ignore_ascii_case(plan.cfg.serial.trim()) && *seq < c.seq,
+                Some((_, serial, seq)) => serial.eq_ignore_ascii_case(&plan.cfg.serial) && *seq < c.seq,
                 None => false,
             };
             if !vetted {
@@ -135,7 +149,7 @@ pub fn judge_faulty(plan: &ClientPlan, run: &ClientRun, out: &mut RunOut) {
         }
         // after a wrong serial: only the protocol acknowledgement of that reply
         if let Some((_, serial, seq)) = ident {
-            if !serial.trim().eq_ignore_ascii_case(plan.cfg.serial.trim()) {
+            if !serial.eq_ignore_ascii_case(&plan.cfg.serial) {
                 let after: Vec<&&Frame> = fs.iter().filter(|f| f.seq > *seq).collect();
                 if after.iter().any(|f| f.bytes[..] != rc::ACK) || after.len() > 1 {
                     out.fail("unvetted_connection", "r1/after_wrong_serial", format!("frames after a wrong-serial identity reply on connection {k}: {:?}", after.iter().map(|f| crate::conn::hex(&f.bytes)).collect::<Vec<_>>()));
@@ -215,6 +229,11 @@ pub fn judge_faulty(plan: &ClientPlan, run: &ClientRun, out: &mut RunOut) {
         out.fail(rule, format!("r2b/{during}"), format!("connection {conn}, event #{seq}: {msg}"));
     }
 
+    if serial_mismatch(plan) {
+        // R3/R5 presuppose a terminal that can be used at all
+        out.stats.hit("probe.serial_mismatch_run");
+        return;
+    }
     // R3 reuse: a call without any fault keeps its connection for the next call
     let fault_seqs: Vec<usize> = pt.fired.iter().map(|f| f.seq).collect();
     let bad_connects: Vec<usize> = run
@@ -500,6 +519,33 @@ impl Check for C09 {
                 p
             }
         }));
+        // a terminal whose serial differs from the configured one in any way but letter case
+        // is never used for commands (no fault involved)
+        fams.push(Family::new("serial_mismatch_never_used", 5 * 12, true, {
+            let wl = wl.clone();
+            move |i, _| {
+                let mut p = ClientPlan::plain(wl[(i % 5) as usize].clone());
+                p.cfg.max_tx = 2;
+                let (cfg, pt): (&str, &str) = [
+                    ("", "17FD1E3C"),
+                    ("1", "17FD1E3C"),
+                    ("17FD1E3", "17FD1E3C"),
+                    ("17FD1E3C0", "17FD1E3C"),
+                    ("17FD1E3D", "17FD1E3C"),
+                    ("07FD1E3C", "17FD1E3C"),
+                    ("7FD1E3C", "17FD1E3C"),
+                    ("17fd1e3", "17FD1E3C"),
+                    ("17FD1E3C", "17FD1E3"),
+                    ("17FD1E3C", "27FD1E3C"),
+                    ("17FD1E3C", "17FD1E3c17"),
+                    ("17FD1E3C ", "17FD1E3C"),
+                ][(i / 5) as usize];
+                p.cfg.serial = cfg.into();
+                p.pt.serial = pt.into();
+                p.label = "serial_mismatch".into();
+                p
+            }
+        }));
         // non-final packets inside the pending query (F6: the query used to be given up mid-exchange)
         fams.push(Family::new("pending_query_with_intermediate_status", 4, true, |i, _| {
             let cleanup = CleanupSpec {
@@ -540,7 +586,9 @@ impl Check for C09 {
         let run = client::run(plan);
         judge_faulty(plan, &run, &mut out);
         // a run in which nothing went wrong is also held to the exact model
-        let fault_free = plan.faults.is_empty() && plan.connects.iter().all(|c| matches!(c, ConnectSpec::Ok | ConnectSpec::DelayMs(_)));
+        let fault_free = plan.faults.is_empty()
+            && plan.connects.iter().all(|c| matches!(c, ConnectSpec::Ok | ConnectSpec::DelayMs(_)))
+            && !serial_mismatch(plan);
         if fault_free {
             for (prop, v) in judge_fault_free(plan, &run).v {
                 if prop == "*" {
@@ -607,6 +655,7 @@ impl Check for C09 {
             "probe.recovery_checked",
             "probe.retry_budget_exhausted",
             "probe.multi_fault_run",
+            "probe.wrong_serial_seen",
         ]
     }
 }
@@ -656,6 +705,17 @@ pub fn random_faulty_plan(rng: &mut Rng) -> ClientPlan {
         }
     }
     random_transport(&mut p, rng);
+    // swarm the configuration: serial (same on both sides, letter case flipped at random), password, currency
+    if rng.pct(50) {
+        let serial: String = (0..8).map(|_| *rng.pick(&b"0123456789ABCDEFabcdefXYZxyz"[..]) as char).collect();
+        p.cfg.serial = serial.clone();
+        p.pt.serial = serial
+            .chars()
+            .map(|c| if rng.pct(40) { if c.is_ascii_lowercase() { c.to_ascii_uppercase() } else { c.to_ascii_lowercase() } } else { c })
+            .collect();
+        p.cfg.password = rng.below(1_000_000) as u32;
+        p.cfg.currency = *rng.pick(&[752u16, 826, 978]);
+    }
     // delays stay far below the 60 s / (read_card_timeout + 2) s time-outs
     p.label = "multi".into();
     p
